@@ -442,6 +442,7 @@ def gen_run(seed, i):
     }
     chunks = gen_chunks(r, names)
     qual = r.choice(["", "", "onmatch", "once"])
+    target = r.choice([None, None, None, "report"])      # print's second argument: a named printout stream
     guard = r.choice(["", "", "#c", "#b"])
     comps = assigns[:]
     if qual == "onmatch":
@@ -455,7 +456,8 @@ def gen_run(seed, i):
         if guard:
             comps.insert(r.randint(0, len(comps)), guard)
     scan = r.choice(["*", "*", "1*", "0-2", "1+3", "2*"])
-    return {"kind": "run", "recs": recs, "chunks": chunks, "tpl": source(chunks), "qual": qual, "guard": guard, "comps": comps, "scan": scan}
+    return {"kind": "run", "recs": recs, "chunks": chunks, "tpl": source(chunks), "qual": qual, "guard": guard, "comps": comps, "scan": scan,
+            "target": target}
 
 
 def expected_runs(case, scanned):
@@ -509,7 +511,8 @@ def case_run(case):
     res = {"case": case, "disagree": [], "oracle": [], "nontrivial": False}
     path = real_run.write_file("pr.csv", case["recs"])
     q = ("." + case["qual"]) if case["qual"] else ""
-    comps = [c if c != "PRINT" else f'print{q}("{case["tpl"]}")' for c in case["comps"]]
+    tgt = f', "{case["target"]}"' if case.get("target") else ""
+    comps = [c if c != "PRINT" else f'print{q}("{case["tpl"]}"{tgt})' for c in case["comps"]]
     text = f"~ id: pr note: a note ~ ${path}[{case['scan']}][ " + "\n ".join(comps) + " ]"
     calls = []
     orig = PrintParser.transform
@@ -536,6 +539,10 @@ def case_run(case):
             res["oracle"].append({"what": "print: a csvpath with a well-formed print string does not parse", "text": text, "error": out["parse_error"]})
         return res
     printed = [x[1] for x in (out.get("printouts") or [])]
+    streams = sorted(set(str(x[0]) for x in (out.get("printouts") or [])))
+    if streams and streams != [str(case.get("target"))]:
+        res["oracle"].append({"what": "print: entries went to another printout stream than the one named", "text": text, "streams": streams,
+                              "want": case.get("target")})
     # model vs code: every execution, with the data the run held at that moment
     ok_calls = [c for c in calls if c[1] is not None]
     if len(ok_calls) != len(printed) and not out.get("errors"):
